@@ -197,3 +197,35 @@ fn c08_one_message_any_schedule() {
     }
     std::mem::forget(reader);
 }
+
+/// Probe: the smallest instance with a LITERAL schedule (Pending, then a 2-byte fragment, then complete reads).
+fn one_message_fixed(sched: [u8; K]) {
+    let d: [u8; 2] = kani::any();
+    let data: [u8; 5] = [0x20, d[0], 0, 5, d[1]];
+    let src = ASrc::<5> { data, len: 5, pos: 0, sched, step: 0, pendings: 0 };
+    let mut reader = DltStreamReader::with_capacity(5, 5, src, false);
+    match drive(&mut reader) {
+        Ok(s) => {
+            assert!(s.len() == 5, "the message is not delivered as one cut");
+            let mut i = 0;
+            while i < 5 { assert!(s[i] == data[i]); i += 1; }
+            kani::cover!(true, "delivered");
+        }
+        Err(_) => assert!(false, "message not delivered"),
+    }
+    std::mem::forget(reader);
+}
+
+#[kani::proof]
+#[kani::unwind(8)]
+#[kani::stub(std::fmt::format, crate::models::fmt_format_stub)]
+fn c08_probe_fixed_pending_then_2() {
+    one_message_fixed([0, 2]);
+}
+
+#[kani::proof]
+#[kani::unwind(8)]
+#[kani::stub(std::fmt::format, crate::models::fmt_format_stub)]
+fn c08_probe_fixed_complete() {
+    one_message_fixed([255, 255]);
+}
